@@ -42,7 +42,7 @@ BUDGET = {
 }
 CLASSES = [
     "basic", "staggered", "wide", "exhaustive", "peaky", "unbatched", "iters_edge",
-    "open_ended", "v1", "rnn", "lookup", "advance_direct", "staggered", "wide", "fusion",
+    "open_ended", "v1", "rnn", "lookup", "advance_direct", "staggered", "wide", "fusion", "long_search",
 ]
 # measured on the unchanged tree, seed 0, 1040 cases; a floor is a quarter of what the tier's
 # number of cases is expected to produce
@@ -191,6 +191,19 @@ def generate(rng, tier, i):
         T = rng.randint(1, 5)
         N = rng.choice([None, 1, 2])
         spec = _gen_lookup(rng, V)
+    elif cls == "long_search":
+        # searches of 64..130 steps (periodic bookkeeping, drift of accumulated scores), end-of-sequence unlikely
+        V = rng.randint(2, 3)
+        N = rng.randint(1, 3)
+        width = rng.randint(1, 4)
+        T = rng.choice([64, 65, 80, 128, 129, rng.randint(64, 130)])
+        eos = _eos(rng, V)
+        cb = _cbias(rng, V, N, spread=0.5)
+        if eos is not None:
+            for n in range(N):
+                cb[n][eos % V] -= rng.choice([1.0, 2.0, 4.0])
+        spec = _spec(rng, V, cbias=cb)
+        case["cond"] = list(range(N))
     elif cls == "fusion":
         # the library's own state-carrying composite: two sub-models whose states travel in one dictionary
         width = rng.randint(1, 6)
